@@ -1,7 +1,7 @@
 #!/bin/bash
 # tools/seed_matrix.sh [ids...]: run every claimed check against every stored seed (scratch copies of /repo), 4 seeds in parallel.
 # SNAP=1: run from a snapshot of /verif (so units/prelude/lib may be edited meanwhile); the Kani result cache is copied along.
-V=/verif
+V=$(cd "$(dirname "$0")/.." && pwd)
 if [ "${SNAP:-0}" = 1 ]; then V=/tmp/verif-snap; rm -rf $V; mkdir -p $V/build/kani; rsync -a --exclude build --exclude replays --exclude .git /verif/ $V/; rsync -a /verif/build/kani/cache $V/build/kani/; fi
 export V
 cd $V
